@@ -19,6 +19,7 @@ import (
 	"verif/props/c10"
 	"verif/props/c11"
 	"verif/props/c12"
+	"verif/props/c13"
 	"verif/props/c18"
 )
 
@@ -35,6 +36,7 @@ var registry = map[string]func(fw.Config, *fw.Rec){
 	"C10": c10.Run,
 	"C11": c11.Run,
 	"C12": c12.Run,
+	"C13": c13.Run,
 	"C18": c18.Run,
 }
 
